@@ -9,6 +9,9 @@ _GEN_TIE = {
     "C06": ("BV.Props.C02Gen", "get_range", "get_range_generated_wrap, get_range_generated"),
     "C01": ("BV.Props.C01Gen", "WrapPosition",
             "stated DIRECTLY over the generated definition: wrap_position_closed_form, wrap_position_low_bits (low 30 bits survive), wrap_position_identity (< 3 GiB), wrap_position_range (fits u32; never below 1 GiB again; below 3 GiB once wrapped), wrap_position_distance (distances modulo 2 GiB) — every u64 position"),
+    "C16": ("BV.Props.C16Gen", "parse_window_size", "parse_window_size_generated (>= 2 bytes: the model never panics and returns the generated answer), parse_window_size_generated_of_ok (any slice: whenever the model returns)"),
+    "C03": ("BV.Props.C16Gen", "parse_window_size", "parse_window_size_generated, parse_window_size_generated_of_ok"),
+    "C12": ("BV.Props.C16Gen", "parse_window_size", "parse_window_size_generated, parse_window_size_generated_of_ok"),
     "C15": ("BV.Props.C15Gen", "EncodeWindowBits", "encode_window_bits_generated (every lgwin < 64, both header forms), encode_window_bits_ignores_outs"),
 }
 for _pid, (_mod, _fns, _ths) in _GEN_TIE.items():
